@@ -27,6 +27,8 @@ struct World {
     touched: Vec<bool>,
     vault_ts: i64,
     vault_tw: i64,
+    /// oracle cache: (steps, cost0 grown `steps` times) — advanced incrementally with exact integers
+    grown: std::cell::RefCell<(u64, BigUint)>,
 }
 
 fn err(e: &AErr) -> String {
@@ -111,7 +113,7 @@ impl Eng {
                 hk::exchange_init(x, 255, &owner, &store, &vault_key).expect("exchange init");
             }
             let w = World { gt, users, exchanges, vault: Box::new(GtExchangeVault::zeroed()),
-                ranks: ranks.iter().take(15).cloned().collect(), cost0: cost, factor, step, touched: vec![false; n], vault_ts: 0, vault_tw: 0 };
+                ranks: ranks.iter().take(15).cloned().collect(), cost0: cost, factor, step, touched: vec![false; n], vault_ts: 0, vault_tw: 0, grown: std::cell::RefCell::new((0, BigUint::from(cost))) };
             let d = digest(&w);
             self.worlds.insert(sid, w);
             return Some(format!("ok | {d}"));
@@ -176,11 +178,16 @@ fn oracle(w: &World, before: Option<&World>, req: &[&str], resp: &str, now: i64,
     if let Some(b) = before { if g.total_minted() < b.gt.total_minted() { viol.push("total minted decreased".into()); } }
     // cost depends only on total minted: initial cost grown (total / step) times
     let steps = g.total_minted() / w.step;
-    if steps <= 5000 {
-        let mut c = BigUint::from(w.cost0);
-        for _ in 0..steps { c = c * BigUint::from(w.factor) / BigUint::from(UNIT); }
-        if BigUint::from(g.minting_cost()) != c || g.grow_steps() != steps {
-            viol.push(format!("minting cost {} ≠ cost0 grown {steps} times = {c}", g.minting_cost()));
+    {
+        let mut cache = w.grown.borrow_mut();
+        if steps >= cache.0 && steps - cache.0 <= 200_000 {
+            let (unit, f, lim) = (BigUint::from(UNIT), BigUint::from(w.factor), BigUint::from(1u8) << 128);
+            let mut ok = true;
+            while cache.0 < steps { cache.1 = &cache.1 * &f / &unit; cache.0 += 1; if cache.1 >= lim { ok = false; break; } }
+            if ok && (BigUint::from(g.minting_cost()) != cache.1 || g.grow_steps() != steps) {
+                viol.push(format!("minting cost {} ≠ cost0 grown {steps} times = {}", g.minting_cost(), cache.1));
+            }
+            if !ok { viol.push("total minted advanced although the grown cost does not fit u128".into()); }
         }
     }
     for (i, u) in w.users.iter().enumerate() {
@@ -228,7 +235,7 @@ fn gen_history(r: &mut Rng, sid: u64, len: u64, out: &mut Vec<String>) {
     if r.chance(1, 30) && ranks.len() >= 2 { ranks.swap(0, 1); } // unsorted ⇒ rejected
     let step = match r.below(24) { 0 => 0, 1 | 2 => 1, _ => r.range(2, 500) };
     let cost: u128 = match r.below(6) { 0 => 0, 1 => r.range(1, 9) as u128, _ => UNIT / 100 * r.range(1, 50) as u128 };
-    let factor: u128 = match r.below(6) { 0 => UNIT, 1 => 2 * UNIT, 2 => UNIT / 2, 3 => r.num(128), _ => UNIT + UNIT / 1000 * r.range(1, 100) as u128 };
+    let factor: u128 = match r.below(8) { 0 => UNIT, 1 => 2 * UNIT, 2 => UNIT / 2, 3 => r.num(128), 4 | 5 => UNIT + UNIT / 10u128.pow(r.range(5, 8) as u32) * r.range(1, 9) as u128, _ => UNIT + UNIT / 1000 * r.range(1, 100) as u128 };
     out.push(format!("gt new {sid} {now} {cost} {factor} {step} {n} {}", ranks.iter().map(|x| x.to_string()).collect::<Vec<_>>().join(" ")).trim_end().to_string());
     let mut bal = vec![0u64; n as usize];
     let mut tw: u64 = 0;
